@@ -11,6 +11,15 @@
 //! fingerprint (outputs on probe tuples both directions, counts, step list, parameter
 //! digest of every step) of every live handle must be unchanged.
 //!
+//! The behaviour fingerprint is ORDER SENSITIVE: every probe tuple is applied alone, the
+//! evaluations of all live handles / contexts / directions are interleaved in an order that
+//! changes at every step (plus one whole-set application in a permuted order), and each
+//! result must equal the one recorded for that tuple at creation, which was compared with
+//! a history-free reference (grid operators: a grid object freshly decoded per tuple). The
+//! probes include child-interior, parent-only and near-border points of nested NTv2 files
+//! (shipped 5458_with_subgrid.gsb, generated root + 2 children + grandchild), so a look-up
+//! that remembers earlier queries inside a shared grid object (process-wide cache) shows.
+//!
 //! Arithmetic of built-in primitives is taken from a pristine thread-local reference
 //! context (GridCtx, in-memory grids, never mutated after set-up); the model decides WHICH
 //! primitive with WHICH constant in WHICH order/direction; user operators are computed
@@ -323,8 +332,70 @@ fn priv_grid_text(v: u8) -> String {
     format!("54 58 8 16 2 4\n{x} {x} {x}\n{x} {x} {x}\n{x} {x} {x}\n")
 }
 
-const CAT_GRIDS: [&str; 7] =
-    ["test.datum", "test_subset.datum", "test.geoid", "5458.gsb", "ga.geoid", "uonly.geoid", "nofile.geoid"];
+const CAT_GRIDS: [&str; 9] = [
+    "test.datum", "test_subset.datum", "test.geoid", "5458.gsb", "ga.geoid", "uonly.geoid", "nofile.geoid",
+    "5458_with_subgrid.gsb", // shipped: root 54..58N 8..16E with a densified child 55..56N 12..14E
+    "c18nest.gsb",           // generated: same root, two children, a grandchild inside the first child
+];
+/// selection pool: the nested NTv2 files three times as likely as the others
+const GRID_POOL: [usize; 13] = [0, 1, 2, 3, 4, 5, 6, 7, 8, 7, 8, 7, 8];
+
+/// Little-endian NTv2 file: sub-grids as (name, parent, lat_s, lat_n, lon_w, lon_e, dlat, dlon in
+/// degrees, constant lat shift, constant lon shift in arc seconds), written in the given order.
+fn ntv2_bytes(subs: &[(&str, &str, f64, f64, f64, f64, f64, f64, f32, f32)]) -> Vec<u8> {
+    fn key(b: &mut Vec<u8>, k: &str) {
+        let mut t = format!("{k:<8}").into_bytes();
+        t.truncate(8);
+        b.extend(t);
+    }
+    fn rec_u32(b: &mut Vec<u8>, k: &str, v: u32) {
+        key(b, k);
+        b.extend(v.to_le_bytes());
+        b.extend([0u8; 4]);
+    }
+    fn rec_str(b: &mut Vec<u8>, k: &str, v: &str) {
+        key(b, k);
+        key(b, v);
+    }
+    fn rec_f64(b: &mut Vec<u8>, k: &str, v: f64) {
+        key(b, k);
+        b.extend(v.to_le_bytes());
+    }
+    let mut b = vec![];
+    rec_u32(&mut b, "NUM_OREC", 11);
+    rec_u32(&mut b, "NUM_SREC", 11);
+    rec_u32(&mut b, "NUM_FILE", subs.len() as u32);
+    rec_str(&mut b, "GS_TYPE", "SECONDS");
+    rec_str(&mut b, "VERSION", "2.0");
+    rec_str(&mut b, "SYSTEM_F", "INTER");
+    rec_str(&mut b, "SYSTEM_T", "GRS80");
+    rec_f64(&mut b, "MAJOR_F", 6378388.0);
+    rec_f64(&mut b, "MINOR_F", 6356911.946127946);
+    rec_f64(&mut b, "MAJOR_T", 6378137.0);
+    rec_f64(&mut b, "MINOR_T", 6356752.314140356);
+    for (name, parent, lat_s, lat_n, lon_w, lon_e, dlat, dlon, slat, slon) in subs {
+        let rows = ((lat_n - lat_s) / dlat).round() as u32 + 1;
+        let cols = ((lon_e - lon_w) / dlon).round() as u32 + 1;
+        rec_str(&mut b, "SUB_NAME", name);
+        rec_str(&mut b, "PARENT", parent);
+        rec_str(&mut b, "CREATED", "20260927");
+        rec_str(&mut b, "UPDATED", "20260927");
+        rec_f64(&mut b, "S_LAT", lat_s * 3600.);
+        rec_f64(&mut b, "N_LAT", lat_n * 3600.);
+        rec_f64(&mut b, "E_LONG", -lon_e * 3600.); // positive west
+        rec_f64(&mut b, "W_LONG", -lon_w * 3600.);
+        rec_f64(&mut b, "LAT_INC", dlat * 3600.);
+        rec_f64(&mut b, "LONG_INC", dlon * 3600.);
+        rec_u32(&mut b, "GS_COUNT", rows * cols);
+        for _ in 0..rows * cols {
+            b.extend(slat.to_le_bytes());
+            b.extend(slon.to_le_bytes());
+            b.extend(0f32.to_le_bytes());
+            b.extend(0f32.to_le_bytes());
+        }
+    }
+    b
+}
 
 fn setup_world() {
     let pid = std::process::id();
@@ -353,11 +424,19 @@ fn setup_world() {
     }
     let repo = PathBuf::from(std::env::var("VERIF_REPO_DIR").unwrap_or_else(|_| "/repo".into())).join("geodesy");
     let mut grids: Vec<(String, Vec<u8>)> = vec![];
-    for (dir, name) in [("datum", "test.datum"), ("datum", "test_subset.datum"), ("geoid", "test.geoid"), ("gsb", "5458.gsb")] {
+    for (dir, name) in [("datum", "test.datum"), ("datum", "test_subset.datum"), ("geoid", "test.geoid"), ("gsb", "5458.gsb"), ("gsb", "5458_with_subgrid.gsb")] {
         let bytes = std::fs::read(repo.join(dir).join(name)).unwrap_or_else(|e| panic!("cannot read shipped grid {name}: {e}"));
         std::fs::write(w.join(dir).join(name), &bytes).expect("copy grid");
         grids.push((name.to_string(), bytes));
     }
+    let nest = ntv2_bytes(&[
+        ("GRAND", "CHILDA", 55.25, 55.75, 12.5, 13.5, 0.25, 0.25, 50., 60.),
+        ("CHILDB", "ROOT", 56.5, 57.5, 9., 11., 0.5, 0.5, 30., 40.),
+        ("ROOT", "NONE", 54., 58., 8., 16., 1., 1., 1., 2.),
+        ("CHILDA", "ROOT", 55., 56., 12., 14., 0.5, 0.5, 10., 20.),
+    ]);
+    std::fs::write(w.join("gsb").join("c18nest.gsb"), &nest).unwrap();
+    grids.push(("c18nest.gsb".into(), nest));
     let ga = "54 58 8 16 1 2\n11 11 11 11 11\n11 11 11 11 11\n11 11 11 11 11\n11 11 11 11 11\n11 11 11 11 11\n".to_string();
     std::fs::write(w.join("geoid").join("ga.geoid"), &ga).unwrap();
     grids.push(("ga.geoid".into(), ga.into_bytes()));
@@ -587,6 +666,24 @@ fn ref_apply(text: &str, fwd: bool, data: &mut Vec<Coor4D>) -> usize {
     })
 }
 
+/// Reference for grid operators: every tuple on its own, through a context whose grid object
+/// has just been decoded from the file bytes and has never served any other query. The result
+/// cannot depend on anything applied before, through whatever handle, context or thread.
+fn fresh_grid_apply(name: &str, fwd: bool, data: &mut Vec<Coor4D>) -> usize {
+    let bytes = &world().grids.iter().find(|(g, _)| g == name).unwrap_or_else(|| panic!("no reference bytes for grid {name}")).1;
+    let def = format!("gridshift grids={name}");
+    let mut n = 0;
+    for c in data.iter_mut() {
+        let mut ctx = GridCtx::default();
+        ctx.add_grid_bytes(name, bytes).unwrap_or_else(|e| panic!("reference grid {name} does not decode: {e:?}"));
+        let h = ctx.op(&def).unwrap_or_else(|e| panic!("reference definition '{def}' does not instantiate: {e:?}"));
+        let mut one = [*c];
+        n += ctx.apply(h, if fwd { Fwd } else { Inv }, &mut one).unwrap_or_else(|e| panic!("reference apply '{def}': {e:?}"));
+        *c = one[0];
+    }
+    n
+}
+
 /// Evaluate the model on `data`. Returns the count; sets `unspec` when the inverse of a
 /// non-invertible operator was needed (left unspecified by the documentation).
 fn eval(node: &Node, fwd: bool, data: &mut Vec<Coor4D>, unspec: &mut bool) -> usize {
@@ -598,7 +695,7 @@ fn eval(node: &Node, fwd: bool, data: &mut Vec<Coor4D>, unspec: &mut bool) -> us
                 Prim::Helm(v) => ref_apply(&format!("helmert x={v}"), f, data),
                 Prim::Noop => ref_apply("noop", f, data),
                 Prim::Fixed(i) => ref_apply(FIXED[*i as usize % FIXED.len()], f, data),
-                Prim::Grid(name) => ref_apply(&format!("gridshift grids={name}"), f, data),
+                Prim::Grid(name) => fresh_grid_apply(name, f, data),
                 Prim::User { c, d } => {
                     let j = *c as usize % 6;
                     if !f && !UC[j].2 {
@@ -895,15 +992,42 @@ impl AnyCtx {
     }
 }
 
+/// Probe tuples. 0..=2 integer valued, 3.. geographic in radians (lon, lat), 5 cartesian.
+/// With respect to the nested NTv2 files (root 54..58N 8..16E, child 55..56N 12..14E, and in the
+/// generated file a grandchild 55.25..55.75N 12.5..13.5E and a second child 56.5..57.5N 9..11E):
+/// 3 = SW corner of the child, 4 = parent only, 6 = child (grandchild) interior, 7 = second
+/// child / parent only, 8 = child only, 9 = just outside the child, 10, 11 = just inside.
 fn probes() -> Vec<Coor4D> {
+    let g = |lon: f64, lat: f64, h: f64, t: f64| Coor4D([lon.to_radians(), lat.to_radians(), h, t]);
     vec![
         Coor4D([10., 20., 30., 40.]),
         Coor4D([-7., 3., 1000., 2020.]),
         Coor4D([55., 12., 100., 2020.5]),
-        Coor4D([12f64.to_radians(), 55f64.to_radians(), 100., 2020.]),
-        Coor4D([9.5f64.to_radians(), 56.25f64.to_radians(), 0., 0.]),
+        g(12., 55., 100., 2020.),
+        g(9.5, 56.25, 0., 0.),
         Coor4D([3513638.19380, 778956.45250, 5248216.46900, 2000.]),
+        g(13., 55.5, 10., 2000.),
+        g(10., 57., 20., 2000.),
+        g(12.2, 55.1, 30., 2000.),
+        g(11.99, 55.5, 40., 2000.),
+        g(12.01, 55.01, 50., 2000.),
+        g(13.99, 55.99, 60., 2000.),
     ]
+}
+/// probe indices that exercise grids (parent-only and child points alternate)
+const GEO_PROBES: [usize; 9] = [4, 6, 7, 8, 9, 10, 3, 11, 4];
+
+fn mix64(mut x: u64) -> u64 {
+    x = x.wrapping_add(0x9E3779B97F4A7C15);
+    x = (x ^ (x >> 30)).wrapping_mul(0xBF58476D1CE4E5B9);
+    x = (x ^ (x >> 27)).wrapping_mul(0x94D049BB133111EB);
+    x ^ (x >> 31)
+}
+/// a permutation of 0..n determined by `seed`
+fn shuffled(n: usize, seed: u64) -> Vec<usize> {
+    let mut v: Vec<usize> = (0..n).collect();
+    v.sort_by_key(|i| mix64(seed ^ (*i as u64).wrapping_mul(0x51ED27)));
+    v
 }
 
 fn bits(v: &[Coor4D]) -> Vec<[u64; 4]> {
@@ -956,18 +1080,21 @@ fn params_write<W: std::fmt::Write>(p: &ParsedParameters, w: &mut W) {
     );
 }
 
+/// The behaviour part holds, per probe tuple, the result of applying the handle to that tuple ALONE
+/// (a history dependent look-up inside a shared object cannot hide behind a fixed evaluation order).
 #[derive(Clone, Debug, PartialEq)]
 struct Fp {
-    fwd: Out,
-    inv: Out,
+    fwd: Vec<Out>,
+    inv: Vec<Out>,
     steps: Result<Vec<String>, String>,
     params: Vec<Result<u64, String>>, // digest per step index 0..max(1, nsteps), then one beyond
 }
 
-fn fingerprint(ctx: &AnyCtx, h: OpHandle) -> Result<Fp, Failure> {
-    let pr = probes();
-    let fwd = lib_apply(ctx, h, true, &pr)?;
-    let inv = lib_apply(ctx, h, false, &pr)?;
+fn singletons(ctx: &AnyCtx, h: OpHandle, fwd: bool, pr: &[Coor4D]) -> Result<Vec<Out>, Failure> {
+    pr.iter().map(|p| lib_apply(ctx, h, fwd, std::slice::from_ref(p))).collect()
+}
+
+fn static_part(ctx: &AnyCtx, h: OpHandle) -> Result<(Result<Vec<String>, String>, Vec<Result<u64, String>>), Failure> {
     let steps = match guard(|| ctx.steps(h)) {
         Err(p) => return Err(Failure { key: format!("panic-steps@{}", p.sig()), msg: format!("steps panics: {} at {}:{}", p.msg, p.file, p.line) }),
         Ok(r) => r.map_err(|e| format!("{e:?}")),
@@ -985,24 +1112,19 @@ fn fingerprint(ctx: &AnyCtx, h: OpHandle) -> Result<Fp, Failure> {
             Ok(Err(e)) => params.push(Err(format!("{e:?}"))),
         }
     }
+    Ok((steps, params))
+}
+
+fn fingerprint(ctx: &AnyCtx, h: OpHandle) -> Result<Fp, Failure> {
+    let pr = probes();
+    let fwd = singletons(ctx, h, true, &pr)?;
+    let inv = singletons(ctx, h, false, &pr)?;
+    let (steps, params) = static_part(ctx, h)?;
     Ok(Fp { fwd, inv, steps, params })
 }
 
-fn fp_diff(a: &Fp, b: &Fp) -> String {
-    let mut v = vec![];
-    if a.fwd != b.fwd {
-        v.push(format!("forward outputs: before count {:?} {} / now count {:?} {}", a.fwd.count, show_bits(&a.fwd.data), b.fwd.count, show_bits(&b.fwd.data)));
-    }
-    if a.inv != b.inv {
-        v.push(format!("inverse outputs: before count {:?} {} / now count {:?} {}", a.inv.count, show_bits(&a.inv.data), b.inv.count, show_bits(&b.inv.data)));
-    }
-    if a.steps != b.steps {
-        v.push(format!("steps: before {:?} / now {:?}", a.steps, b.steps));
-    }
-    if a.params != b.params {
-        v.push(format!("parameter digests: before {:?} / now {:?}", a.params, b.params));
-    }
-    v.join("; ")
+fn show_outs(v: &[Out]) -> String {
+    v.iter().take(2).map(|o| format!("{:?} {}", o.count, show_bits(&o.data))).collect::<Vec<_>>().join(" | ")
 }
 
 // =====================================================================================
@@ -1103,13 +1225,14 @@ fn concretize(def: &Def, slots: &[Option<String>; 2]) -> Def {
 }
 
 fn gen_data(n: usize, seed: i16) -> Vec<Coor4D> {
+    // integer valued tuples, points in the child sub-grids and parent-only points of the nested grids, mixed
     (0..n)
         .map(|i| {
             let f = i as f64;
-            if i % 3 == 2 {
-                Coor4D([(8.5 + 0.25 * f).to_radians(), (54.5 + 0.125 * f).to_radians(), seed as f64, 2000.])
-            } else {
-                Coor4D([seed as f64 + 7. * f, 20. - f, 30. + f, 2000. + f])
+            match i % 3 {
+                2 => Coor4D([(8.5 + 0.25 * f).to_radians(), (54.5 + 0.125 * f).to_radians(), seed as f64, 2000.]),
+                1 => Coor4D([(12.3 + 0.125 * f).to_radians(), (55.2 + 0.0625 * f).to_radians(), seed as f64, 2000.]),
+                _ => Coor4D([seed as f64 + 7. * f, 20. - f, 30. + f, 2000. + f]),
             }
         })
         .collect()
@@ -1120,6 +1243,20 @@ fn model_out(node: &Node, fwd: bool, input: &[Coor4D]) -> (Out, bool) {
     let mut unspec = false;
     let n = eval(node, fwd, &mut data, &mut unspec);
     (Out { count: Ok(n), data: bits(&data) }, unspec)
+}
+
+/// the model's result for every tuple of `input` on its own
+fn model_singletons(node: &Node, fwd: bool, input: &[Coor4D]) -> (Vec<Out>, bool) {
+    let mut unspec = false;
+    let v = input
+        .iter()
+        .map(|p| {
+            let (o, u) = model_out(node, fwd, std::slice::from_ref(p));
+            unspec |= u;
+            o
+        })
+        .collect();
+    (v, unspec)
 }
 
 const MAX_LIVE: usize = 20;
@@ -1176,15 +1313,56 @@ impl Hist {
         }
     }
 
-    /// Every live handle must still behave, list and parameterise exactly as when created
+    /// Every live handle must still behave, list and parameterise exactly as when created.
+    /// Behaviour: every probe tuple is applied ALONE; the evaluations of all live handles (all
+    /// contexts), both directions, are interleaved in an order that changes with every history
+    /// step, so each evaluation is preceded by arbitrary other applies - through the same handle,
+    /// through other handles and contexts sharing the same grid object. Each result must be
+    /// bit-identical to the one recorded for that tuple when the handle was created (which was
+    /// itself compared with a history-free reference). Then one whole-set application in a
+    /// permuted order: every tuple must come out as it does alone.
     fn recheck(&self, after: &str, at: usize) -> CaseResult {
-        for l in &self.live {
-            let fp = fingerprint(&self.ctxs[l.ctx].any, l.h)?;
-            if fp != l.fp {
+        let pr = probes();
+        let np = pr.len();
+        let seed = mix64(at as u64 * 0x1_0001 + self.live.len() as u64 * 977 + self.all.len() as u64);
+        let total = self.live.len() * 2 * np;
+        let mut previous = String::from("nothing");
+        for t in shuffled(total, seed) {
+            let (li, rest) = (t / (2 * np), t % (2 * np));
+            let (fwd, j) = (rest / np == 0, rest % np);
+            let l = &self.live[li];
+            let out = lib_apply(&self.ctxs[l.ctx].any, l.h, fwd, std::slice::from_ref(&pr[j]))?;
+            let want = if fwd { &l.fp.fwd[j] } else { &l.fp.inv[j] };
+            if &out != want {
                 vfail!(
                     format!("handle-changed-after-{after}"),
-                    "operator '{}' instantiated at step {} in context #{} changed after history step {at} ({after}): {}",
-                    l.text, l.born, l.ctx, fp_diff(&l.fp, &fp)
+                    "operator '{}' instantiated at step {} in context #{} changed after history step {at} ({after}): {} of probe tuple #{j} {:?} applied alone gives count {:?} {}, when the handle was created it gave count {:?} {}; the evaluation directly before this one was: {previous}",
+                    l.text, l.born, l.ctx, if fwd { "Fwd" } else { "Inv" }, pr[j], out.count, show_bits(&out.data), want.count, show_bits(&want.data)
+                );
+            }
+            previous = format!("{} of probe tuple #{j} through '{}' (context #{})", if fwd { "Fwd" } else { "Inv" }, l.text, l.ctx);
+        }
+        for (li, l) in self.live.iter().enumerate() {
+            let fwd = (at + li) % 2 == 0;
+            let order = shuffled(np, seed ^ li as u64);
+            let input: Vec<Coor4D> = order.iter().map(|j| pr[*j]).collect();
+            let out = lib_apply(&self.ctxs[l.ctx].any, l.h, fwd, &input)?;
+            for (k, j) in order.iter().enumerate() {
+                let want = if fwd { &l.fp.fwd[*j] } else { &l.fp.inv[*j] };
+                if out.count.is_err() || out.data[k] != want.data[0] {
+                    vfail!(
+                        format!("handle-changed-after-{after}"),
+                        "operator '{}' (context #{}) after history step {at} ({after}): {} of the probe tuples in the order {order:?} gives {:?} {} for tuple #{j} {:?}, but {} for that tuple alone when the handle was created",
+                        l.text, l.ctx, if fwd { "Fwd" } else { "Inv" }, out.count, show_bits(&out.data[k..k + 1]), pr[*j], show_bits(&want.data)
+                    );
+                }
+            }
+            let (steps, params) = static_part(&self.ctxs[l.ctx].any, l.h)?;
+            if steps != l.fp.steps || params != l.fp.params {
+                vfail!(
+                    format!("handle-changed-after-{after}"),
+                    "operator '{}' instantiated at step {} in context #{} changed after history step {at} ({after}): steps before {:?} / now {:?}; parameter digests before {:?} / now {:?}",
+                    l.text, l.born, l.ctx, l.fp.steps, steps, l.fp.params, params
                 );
             }
         }
@@ -1240,8 +1418,8 @@ impl Hist {
             vfail!("duplicate-handle", "op({text:?}) returned handle {h:?} which an earlier op() of this history already returned");
         }
         let fp = fingerprint(&self.ctxs[ci].any, h)?;
-        if fp.fwd.count.is_err() || fp.steps.is_err() || fp.params[0].is_err() {
-            vfail!("fresh-handle-rejected", "handle just returned by op({text:?}) is rejected: apply {:?}, steps {:?}, params {:?}", fp.fwd.count, fp.steps, fp.params[0]);
+        if fp.fwd[0].count.is_err() || fp.steps.is_err() || fp.params[0].is_err() {
+            vfail!("fresh-handle-rejected", "handle just returned by op({text:?}) is rejected: apply {:?}, steps {:?}, params {:?}", fp.fwd[0].count, fp.steps, fp.params[0]);
         }
         let first_name = match &def.steps[0] {
             Step::Call { name, .. } => Some(name.clone()),
@@ -1257,7 +1435,7 @@ impl Hist {
                 vfail!(
                     format!("expected-error-got-ok/{tag}"),
                     "op({text:?}) succeeded (forward on {:?} gives {}), the registry model expects {} [{}]",
-                    probes()[0], show_bits(&fp.fwd.data[..1]), expected_text(), self.registry_text(ci)
+                    probes()[0], show_bits(&fp.fwd[0].data), expected_text(), self.registry_text(ci)
                 );
             }
             let pr = probes();
@@ -1265,8 +1443,8 @@ impl Hist {
             let mut detail = String::new();
             for a in &ex.alts {
                 let Alt::Ok(node, names) = a else { continue };
-                let (mf, _) = model_out(node, true, &pr);
-                let (mi, unspec_inv) = model_out(node, false, &pr);
+                let (mf, _) = model_singletons(node, true, &pr);
+                let (mi, unspec_inv) = model_singletons(node, false, &pr);
                 let inv_ok = unspec_inv || node.has_noninvertible() || mi == fp.inv;
                 if mf == fp.fwd && inv_ok {
                     behaviour_ok = true;
@@ -1278,15 +1456,18 @@ impl Hist {
                     }
                     detail = format!("behaviour matches {} but the step list is {:?}, expected operator names {:?}", node.describe(), steps, names);
                 } else if detail.is_empty() {
+                    let first = (0..pr.len()).find(|j| mf[*j] != fp.fwd[*j]).map(|j| (true, j)).or_else(|| (0..pr.len()).find(|j| mi[*j] != fp.inv[*j]).map(|j| (false, j)));
+                    let (f, j) = first.unwrap_or((true, 0));
+                    let (m, l) = if f { (&mf[j], &fp.fwd[j]) } else { (&mi[j], &fp.inv[j]) };
                     detail = format!(
-                        "expected {}: forward count {:?} {} / inverse count {:?} {}; library: forward count {:?} {} / inverse count {:?} {}",
-                        node.describe(), mf.count, show_bits(&mf.data), mi.count, show_bits(&mi.data), fp.fwd.count, show_bits(&fp.fwd.data), fp.inv.count, show_bits(&fp.inv.data)
+                        "expected {}: {} of probe tuple #{j} {:?} (applied alone): model count {:?} {} / library count {:?} {}; tuples #0,#1 forward: model {} / library {}",
+                        node.describe(), if f { "Fwd" } else { "Inv" }, pr[j], m.count, show_bits(&m.data), l.count, show_bits(&l.data), show_outs(&mf), show_outs(&fp.fwd)
                     );
                 }
             }
             if tree.is_none() {
                 let key = if behaviour_ok { format!("steps-mismatch/{tag}") } else { format!("resolution-mismatch/{tag}") };
-                vfail!(key, "op({text:?}) does not behave as the registry model resolves it; expected {}; {detail}; (first two of the probe tuples {:?} shown) [{}]", expected_text(), &probes()[..2], self.registry_text(ci));
+                vfail!(key, "op({text:?}) does not behave as the registry model resolves it; expected {}; {detail} [{}]", expected_text(), self.registry_text(ci));
             }
             // selected parameters of a top-level leaf
             if let Some(Node::Leaf { prim, .. }) = &tree {
@@ -1626,7 +1807,8 @@ fn burst(w: &mut Hist, threads: u8, rounds: u8, seed: u16, side: bool, rec: &mut
     let ctxs = &w.ctxs;
     let live = &w.live;
     let names: Vec<String> = live.iter().filter_map(|l| l.first_name.clone()).collect();
-    type JobOut = (usize, bool, Result<Out, Failure>);
+    type JobOut = (usize, bool, usize, Result<Out, Failure>);
+    type SideOut = Result<(&'static str, bool, usize, Out), Failure>;
     // Helper threads come from a dedicated pool (thread creation costs ~1 ms here); a short
     // spin barrier makes the tasks of one burst start together when enough helpers are free.
     let started = AtomicU64::new(0);
@@ -1638,8 +1820,9 @@ fn burst(w: &mut Hist, threads: u8, rounds: u8, seed: u16, side: bool, rec: &mut
             std::hint::spin_loop();
         }
     };
+    let np = pr.len();
     let results: std::sync::Mutex<Vec<Vec<JobOut>>> = std::sync::Mutex::new(vec![]);
-    let side_res: std::sync::Mutex<Vec<Result<(String, Out), Failure>>> = std::sync::Mutex::new(vec![]);
+    let side_res: std::sync::Mutex<Vec<SideOut>> = std::sync::Mutex::new(vec![]);
     {
         let mut jobs: Vec<Box<dyn FnOnce() + Send + '_>> = vec![];
         for ti in 0..t {
@@ -1648,11 +1831,14 @@ fn burst(w: &mut Hist, threads: u8, rounds: u8, seed: u16, side: bool, rec: &mut
                 gate(started);
                 let mut out: Vec<JobOut> = vec![];
                 if nlive > 0 {
-                    for ri in 0..r {
-                        let k = (seed as usize + 31 * ti + 17 * ri) % nlive;
-                        let fwd = (ti + ri + seed as usize) % 2 == 0;
+                    // single tuples: parent-only and child points of the grids alternate, so that
+                    // concurrent threads hit different sub-grids of one shared grid object
+                    for ri in 0..4 * r {
+                        let k = (seed as usize + 31 * ti + 17 * (ri / 4)) % nlive;
+                        let fwd = (ti + ri / 2 + seed as usize) % 2 == 0;
                         let l = &live[k];
-                        out.push((k, fwd, lib_apply(&ctxs[l.ctx].any, l.h, fwd, pr)));
+                        let j = if l.has_grid { GEO_PROBES[(ti + ri + seed as usize) % GEO_PROBES.len()] } else { (5 * ri + ti + seed as usize) % np };
+                        out.push((k, fwd, j, lib_apply(&ctxs[l.ctx].any, l.h, fwd, std::slice::from_ref(&pr[j]))));
                     }
                 }
                 results.lock().unwrap().push(out);
@@ -1663,16 +1849,26 @@ fn burst(w: &mut Hist, threads: u8, rounds: u8, seed: u16, side: bool, rec: &mut
             jobs.push(Box::new(move || {
                 gate(started);
                 let r2 = guard(|| {
-                    let mut out: Vec<Result<(String, Out), Failure>> = vec![];
+                    let mut out: Vec<SideOut> = vec![];
                     let mut c = AnyCtx::make(true, true);
                     let mut c2 = AnyCtx::make(ri_kind(seed), true);
                     for ri in 0..r {
-                        for def in ["gridshift grids=test.datum", "reg:grid", "gridshift grids=ga.geoid", "ureg:v"] {
+                        for (di, def) in SIDE_DEFS.iter().enumerate() {
                             match c.op(def) {
-                                Ok(h) => out.push(lib_apply(&c, h, ri % 2 == 0, pr).map(|o| (format!("{def}/{}", ri % 2 == 0), o))),
+                                Ok(h) => {
+                                    for q in 0..3 {
+                                        let j = GEO_PROBES[(q + ri + di + seed as usize) % GEO_PROBES.len()];
+                                        let fwd = (ri + q) % 2 == 0;
+                                        out.push(lib_apply(&c, h, fwd, std::slice::from_ref(&pr[j])).map(|o| (*def, fwd, j, o)));
+                                    }
+                                }
                                 Err(e) => out.push(Err(Failure { key: "side-thread-op-failed".into(), msg: format!("op({def:?}) in the side thread of a burst failed: {e:?}") })),
                             }
-                            Plain::clear_grids();
+                            // cleared only every other time: in between, the grid objects stay shared
+                            // with the handles the other threads are applying
+                            if (ri + di) % 2 == 1 {
+                                Plain::clear_grids();
+                            }
                         }
                         for (k, n) in names.iter().enumerate() {
                             if n.contains(':') {
@@ -1700,38 +1896,49 @@ fn burst(w: &mut Hist, threads: u8, rounds: u8, seed: u16, side: bool, rec: &mut
         panic!("a burst job died outside the library guards ({} of {t} results, side {})", results.len(), side_out.len());
     }
     for jobs in results {
-        for (k, fwd, out) in jobs {
+        for (k, fwd, j, out) in jobs {
             let out = out?;
             let l = &w.live[k];
-            let want = if fwd { &l.fp.fwd } else { &l.fp.inv };
+            let want = if fwd { &l.fp.fwd[j] } else { &l.fp.inv[j] };
             if &out != want {
                 vfail!(
                     "concurrent-mismatch",
-                    "'{}' ({}) applied from one of {t} threads sharing the context: count {:?} {} vs sequential count {:?} {}",
-                    l.text, if fwd { "Fwd" } else { "Inv" }, out.count, show_bits(&out.data), want.count, show_bits(&want.data)
+                    "'{}' ({}) applied to probe tuple #{j} {:?} alone from one of {t} threads sharing the context: count {:?} {} vs sequential count {:?} {}",
+                    l.text, if fwd { "Fwd" } else { "Inv" }, pr[j], out.count, show_bits(&out.data), want.count, show_bits(&want.data)
                 );
             }
             rec.count("concurrent_applies", 1);
         }
     }
     for so in side_out {
-        let (what, out) = so?;
-        let (def, fwd) = what.rsplit_once('/').unwrap();
-        let fwd = fwd == "true";
+        let (def, fwd, j, out) = so?;
+        let leaf = |g: &str| Node::Leaf { prim: Prim::Grid(g.into()), inverted: false };
         let node = match def {
-            "gridshift grids=test.datum" => Node::Leaf { prim: Prim::Grid("test.datum".into()), inverted: false },
-            "gridshift grids=ga.geoid" => Node::Leaf { prim: Prim::Grid("ga.geoid".into()), inverted: false },
-            "reg:grid" => Node::Seq { items: vec![Node::Leaf { prim: Prim::Grid("test.datum".into()), inverted: false }, Node::Leaf { prim: Prim::Add1, inverted: false }], inverted: false },
-            _ => Node::Leaf { prim: Prim::Helm(631), inverted: false },
+            "reg:grid" => Node::Seq { items: vec![leaf("test.datum"), Node::Leaf { prim: Prim::Add1, inverted: false }], inverted: false },
+            "ureg:v" => Node::Leaf { prim: Prim::Helm(631), inverted: false },
+            d => leaf(d.strip_prefix("gridshift grids=").expect("side definition")),
         };
-        let (m, _) = model_out(&node, fwd, &pr);
+        let (m, _) = model_out(&node, fwd, std::slice::from_ref(&pr[j]));
         if m != out {
-            vfail!("side-thread-mismatch", "'{def}' instantiated and applied in a second Plain context while the grid cache is cleared concurrently: count {:?} {} vs reference count {:?} {}", out.count, show_bits(&out.data), m.count, show_bits(&m.data));
+            vfail!(
+                "side-thread-mismatch",
+                "'{def}' instantiated in a second Plain context and applied ({}) to probe tuple #{j} {:?} alone, while other threads apply and the grid cache is cleared concurrently: count {:?} {} vs history-free reference count {:?} {}",
+                if fwd { "Fwd" } else { "Inv" }, pr[j], out.count, show_bits(&out.data), m.count, show_bits(&m.data)
+            );
         }
         rec.count("side_thread_applies", 1);
     }
     Ok(())
 }
+
+const SIDE_DEFS: [&str; 6] = [
+    "gridshift grids=5458_with_subgrid.gsb",
+    "gridshift grids=test.datum",
+    "reg:grid",
+    "gridshift grids=c18nest.gsb",
+    "gridshift grids=ga.geoid",
+    "ureg:v",
+];
 
 // =====================================================================================
 // 7. Generators
@@ -1778,7 +1985,7 @@ fn arb_arg() -> impl Strategy<Value = Arg> {
 
 fn arb_gridsel() -> impl Strategy<Value = GridSel> {
     prop_oneof![
-        6 => any::<u16>().prop_map(|i| GridSel::Cat(CAT_GRIDS[pick(i, CAT_GRIDS.len())].to_string())),
+        6 => any::<u16>().prop_map(|i| GridSel::Cat(CAT_GRIDS[GRID_POOL[pick(i, GRID_POOL.len())]].to_string())),
         4 => (0u8..2).prop_map(GridSel::Priv),
     ]
 }
@@ -1866,6 +2073,35 @@ fn file_item_cases() -> Vec<History> {
             ],
         });
     }
+    // nested NTv2 files: handles on the same file in two Plain contexts, plain / inverted / inside a
+    // pipeline, applies of generated data, bursts, cache clears, a new context, all interleaved by the
+    // re-fingerprinting after every step
+    for file in ["5458_with_subgrid.gsb", "c18nest.gsb"] {
+        let g = |inv: bool| Step::Grid { g: GridSel::Cat(file.to_string()), inv };
+        for variant in 0..3u8 {
+            let second = match variant {
+                0 => one(g(false)),
+                1 => one(g(true)),
+                _ => pipe(vec![Step::Fixed { i: 0, inv: false }, g(false), Step::Fixed { i: 1, inv: false }]),
+            };
+            v.push(History {
+                cmds: vec![
+                    Cmd::Op { ctx: 1, def: one(g(false)), layout: 0 },
+                    Cmd::Op { ctx: 2, def: second.clone(), layout: 0 },
+                    Cmd::Apply { h: 0, fwd: true, n: 9, seed: 3 },
+                    Cmd::Burst { threads: 3, rounds: 3, seed: 5 + variant as u16, side: true },
+                    Cmd::Op { ctx: 2, def: pipe(vec![g(false), helm(2)]), layout: 1 },
+                    Cmd::Apply { h: 40000, fwd: false, n: 11, seed: -4 },
+                    Cmd::ClearGrids,
+                    Cmd::Op { ctx: 1, def: second.clone(), layout: 0 },
+                    Cmd::NewCtx { slot: 0, plain: true, with_new: false },
+                    Cmd::Op { ctx: 0, def: one(g(variant == 1)), layout: 0 },
+                    Cmd::Burst { threads: 5, rounds: 7, seed: 8 + variant as u16, side: variant != 0 },
+                    Cmd::Apply { h: 65000, fwd: true, n: 6, seed: 9 },
+                ],
+            });
+        }
+    }
     v
 }
 
@@ -1884,12 +2120,13 @@ fn main() {
     run.assume("'$' forwarding on macro invocations, prefix 'inv', omit_fwd/omit_inv are left to C03/C04 and not generated; caller arguments are visible to every step of a macro body (documented), step-local values win");
     run.assume("inverse application of a definition containing a non-invertible user operator is unspecified and only checked for stability");
     run.assume("thread schedules are sampled by the OS, not enumerated");
+    run.assume("per-tuple references: a tuple applied together with others (any order) must come out as when applied alone; all generated definitions are free of stack operators, so this is implied by the property (behaviour independent of anything applied before)");
 
     let items = file_item_cases();
     let n_items = items.len();
     run.enumerate(
         "file-items",
-        "every item of the generated resource tree (several fenced items per register, prefix-named items, item at end of file, CR/LF, lone CR, missing terminator, stand-alone files, user data directory, both directories, comments) x 5 fixed histories: direct, Plain::default + inv, inside a pipeline, on Minimal, run-time registration after instantiation + cache clear + burst",
+        "every item of the generated resource tree x 5 fixed histories, plus 6 fixed histories on the nested NTv2 grid files (shipped 5458_with_subgrid.gsb, generated root + 2 children + grandchild) with handles in three Plain contexts; items: (several fenced items per register, prefix-named items, item at end of file, CR/LF, lone CR, missing terminator, stand-alone files, user data directory, both directories, comments) x 5 fixed histories: direct, Plain::default + inv, inside a pipeline, on Minimal, run-time registration after instantiation + cache clear + burst",
         n_items,
         move |i| items[i].clone(),
         run_history,
